@@ -585,7 +585,7 @@ def c19_nontrivial(case, a):
 PROPS = {}
 PROPS["C19"] = {
     "build": c19_build, "gate": c19_gate, "oracle": c19_oracle, "nontrivial": c19_nontrivial,
-    "rule": "all ordered pairs (and all triples, for transitivity) over fixed carriers: KeyFormatVersions built by push/pop/truncate/FromIterator scripts (truncated buffers with stale content, equal length/different content), Float/UFloat bit patterns (±0, subnormals, adjacent values, extremes), decryption keys and EXT-X-KEY texts, client attribute values, EXT-X-START, variant streams, generated media and master playlists; non-trivial = accepted pair of two different carrier elements",
+    "rule": "all ordered pairs (and all triples, for transitivity) over fixed carriers: KeyFormatVersions built by push/pop/truncate/FromIterator scripts (truncated buffers with stale content, equal length/different content), Float/UFloat bit patterns (±0, subnormals, adjacent values, extremes), decryption keys and EXT-X-KEY texts, client attribute values, EXT-X-START, variant streams, generated media and master playlists; near-pair families for every type and tag with a text form (absent / zero / default / empty value, neighbours, the same content in another field), media / master playlists one tag apart, 37 builder scripts one call apart (cmp_build_media: playlists and their segment lists), negative patterns for UFloat; non-trivial = accepted pair of two different carrier elements",
     "exhaustive": False,
     "explanation": "theorems: kfv_laws, f32_laws (hand-written impls), decryptionKey_cmp_laws / extXKey_cmp_laws (derived order the key set relies on) on the model; the model's ==/cmp/hash outcomes are compared with the implementation's on every pair (gate), and the six laws are evaluated on the implementation's own answers for all types including the derived ones",
     "assumptions": ["derived PartialEq/Ord/Hash are structural/lexicographic/field-wise (rustc)", "hash equality is observed through DefaultHasher (SipHash) - collisions of unequal inputs are ignored", "+0 == -0 for Float is IEEE equality by design; content is compared up to that identification"],
@@ -860,7 +860,7 @@ def _k5(f):
 PROPS["C13"] = {
     "build": c13_build, "gate": {"status", "obs", "A", "S"}, "oracle": c13_oracle,
     "nontrivial": lambda c, a: bool(c.meta.get("cfg") and (c.meta["cfg"]["variants"] or c.meta["cfg"].get("sd"))) or (c.group in ("generated", "corpus") and a.startswith("ok")),
-    "rule": "exhaustive reduced scope (every subset of 4 renditions x every {absent,g1[,NONE]} assignment of variant 1, {absent,g1,g2,NONE}x{absent,g2} of variant 2, i-frame video {absent,g1}, both tag orders), all triples of session data over 2 ids x 3 languages, random configurations over the full scope of the property (4 types x 2 ids, <= 2 variants + i-frame, shuffled tags, a group literally named NONE), generated larger masters (consistent and inconsistent); non-trivial = configuration with at least one variant or session-data tag (distinct texts)",
+    "rule": "exhaustive reduced scope (every subset of 4 renditions x every {absent,g1[,NONE]} assignment of variant 1, {absent,g1,g2,NONE}x{absent,g2} of variant 2, i-frame video {absent,g1}, both tag orders), all triples of session data over 2 ids x 3 languages, random configurations over the full scope of the property (4 types x 2 ids, <= 2 variants + i-frame, shuffled tags, a group literally named NONE), generated larger masters (consistent and inconsistent); the small configurations through MasterPlaylistBuilder scripts (every list setter with items / empty / not called); look-alike group ids, DATA-IDs and languages (other case, a blank); every session-data tag with its own payload; non-trivial = configuration with at least one variant or session-data tag (distinct texts)",
     "exhaustive": False,
     "explanation": "theorems: validateVariants_iff, validateSessionData_iff, build_ok_iff, parseMaster_consistent, assembleMaster_ok_iff, associatedWith_iff, isAssociated_iff_partial (+ isAssociated_counterexample for K5); oracle: acceptance of every rendered configuration is compared with an independent Python statement of the rule, every accepted value is re-checked for consistency, its rendition lookup and the three stream selectors (audio_streams, video_streams, unassociated_streams) are compared with the references",
     "assumptions": ["the builder path of the same rule (MasterPlaylistBuilder::build): theorem build_ok_iff on the model; on the implementation the small configurations are also driven through MasterPlaylistBuilder scripts, with every list setter called with its items, with an empty list, or not at all (group 'builder')"],
@@ -970,6 +970,31 @@ def brange(n):
     return (None if a == "-" else int(a), int(b))
 
 
+def dress_header(rng, text, avoid=()):
+    """put other, valid playlist-level tags behind the TARGETDURATION line of a media playlist text (the subject of a property has
+    to hold whatever else the playlist declares: a shared validation function that returns early under some playlist-level
+    condition only shows then). `avoid`: kinds that would change the expectation."""
+    opts = {"ifo": "#EXT-X-I-FRAMES-ONLY", "vod": "#EXT-X-PLAYLIST-TYPE:VOD", "event": "#EXT-X-PLAYLIST-TYPE:EVENT", "ds": "#EXT-X-DISCONTINUITY-SEQUENCE:2",
+            "start": "#EXT-X-START:TIME-OFFSET=1.5", "version": "#EXT-X-VERSION:7", "unknown": "#EXT-X-HDR:1", "ms": "#EXT-X-MEDIA-SEQUENCE:5"}
+    # INDEPENDENT-SEGMENTS brings the library's own rule on key methods (finding K1) into play: only where every key is AES-128
+    if "METHOD=NONE" not in text and "SAMPLE-AES" not in text:
+        opts["ind"] = "#EXT-X-INDEPENDENT-SEGMENTS"
+    kinds = [k for k in opts if k not in avoid]
+    picked = [k for k in kinds if rng.random() < 0.35]
+    if "vod" in picked and "event" in picked:
+        picked.remove("event")
+    if not picked:
+        return text
+    out = []
+    done = False
+    for ln in text.split("\n"):
+        out.append(ln)
+        if not done and ln.startswith("#EXT-X-TARGETDURATION"):
+            out += [opts[k] for k in picked]
+            done = True
+    return "\n".join(out) if done else text
+
+
 def dress_media(rng, text, avoid=()):
     """put other, valid segment tags in front of some EXTINF lines of a media playlist text: the subject of a property has to
     hold for every segment whatever else the segment carries (a check that is skipped under some unrelated condition, e.g. a
@@ -1066,7 +1091,7 @@ def c06_build(ctx):
         seq = tuple(rng.choice(C06_ALPHA) if rng.random() < 0.7 else ("S",) for _ in range(n)) + (("S",),)
         cases.append(mk("media", c06_render(seq), group="random-long", meta={"seq": seq}))
         if rng.random() < 0.4:
-            cases.append(mk("media", dress_media(rng, c06_render(seq), avoid=("key", "keyiv", "map")), group="random-long-dressed", meta={"seq": seq}))
+            cases.append(mk("media", dress_header(rng, dress_media(rng, c06_render(seq), avoid=("key", "keyiv", "map"))), group="random-long-dressed", meta={"seq": seq}))
     for _ in range(ctx.n(500, 5000)):
         cases.append(mk("media", G.gen_media(rng, key_weight=0.6, features=ctx.features)[0], group="generated"))
     for n in range(1, 4):
@@ -1179,7 +1204,7 @@ def c06_canon(raw, keys):
 PROPS["C06"] = {
     "build": c06_build, "gate": {"status"}, "canon": c06_canon, "oracle": c06_oracle,
     "nontrivial": lambda c, a: a.startswith("ok") and ("#EXT-X-KEY" in c.payload),
-    "rule": "every event sequence over the 11-letter alphabet {key in one of 4 key formats (absent, \"identity\", custom, FairPlay) x 2 payloads, METHOD=NONE, EXT-X-MAP, segment} up to the length bound (quick 4, thorough 5), random sequences up to length 60, generated playlists with a high key rate; non-trivial = accepted text with at least one EXT-X-KEY",
+    "rule": "every event sequence over the 11-letter alphabet {key in one of 4 key formats (absent, \"identity\", custom, FairPlay) x 2 payloads, METHOD=NONE, EXT-X-MAP, segment} up to the length bound (quick 4, thorough 5), random sequences up to length 60, generated playlists with a high key rate; look-alike formats and URIs (other letter case) exhaustively to length 3 and at random; every string literal the source spells now and did not spell in source_literals.json as a KEYFORMAT of its own next to the well-known formats; non-trivial = accepted text with at least one EXT-X-KEY",
     "exhaustive": True,
     "explanation": "theorems: abs_step (one-step refinement of the parser's key-set update against the RFC specification), rel_fold (every line history), keys_in_effect_lines / keys_in_effect (every accepted text: each segment and map reports the specification's snapshot), no_two_keys_same_format, decryptable_abs; oracle: independent Python simulation of RFC 8216 4.3.2.4 per event sequence compared with the implementation's per-segment and per-map key sets",
     "assumptions": ["exhaustive = all sequences up to the stated length over the stated alphabet (not all texts)"],
@@ -1274,7 +1299,7 @@ def c07_build(ctx):
         cases.append(mk("rt_media", text, group="numbering+iv", meta={"exp": exp, "base": base}))
     for _ in range(ctx.n(2000, 40000)):
         text, exp, base = c07_case(rng)
-        cases.append(mk("rt_media", dress_media(rng, text, avoid=("key", "keyiv")), group="numbering+iv-dressed", meta={"exp": exp, "base": base}))
+        cases.append(mk("rt_media", dress_header(rng, dress_media(rng, text, avoid=("key", "keyiv")), avoid=("ms",)), group="numbering+iv-dressed", meta={"exp": exp, "base": base}))
     for t in corpus_texts():
         if "#EXTINF" in t:
             cases.append(mk("rt_media", t, group="corpus"))
@@ -1394,7 +1419,7 @@ def c07_canon(raw, keys):
 PROPS["C07"] = {
     "build": c07_build, "gate": {"status"}, "canon": c07_canon, "oracle": c07_oracle,
     "nontrivial": lambda c, a: a.startswith("ok") and "#EXT-X-KEY" in c.payload,
-    "rule": "random playlists of 1-6 segments with media sequences from {absent, 0, 1, 7, 2^32, 2^63, 2^64-1-len .. 2^64-1, random} placed at a random line boundary, key histories over 4 formats / 2 methods / explicit 128-bit IVs in both hex cases / METHOD=NONE; repository fixtures; generated playlists; builder call sequences (push_segment / segments) with implicit, permuted explicit, partly explicit and random explicit numbers and per-segment keys; non-trivial = accepted text with at least one EXT-X-KEY",
+    "rule": "random playlists of 1-6 segments with media sequences from {absent, 0, 1, 7, 2^32, 2^63, 2^64-1-len .. 2^64-1, random} placed at a random line boundary, key histories over 4 formats / 2 methods / explicit 128-bit IVs in both hex cases / METHOD=NONE; repository fixtures; generated playlists; builder call sequences (push_segment / segments) with implicit, permuted explicit, partly explicit and random explicit numbers and per-segment keys; the tag restated (all pairs over 0, 1, 7, 2^32) and a builder that holds a media sequence before it parses the text (scripts ending in parse); non-trivial = accepted text with at least one EXT-X-KEY",
     "explanation": "theorems: numbering_lines / numbering (number = media sequence + index, < 2^64, media sequence = last MEDIA-SEQUENCE line wherever it stands), completeIv_spec, completeIv_explicit, derived_iv_value, effective_ivs_lines, show_iv_free, stripIv_spec, stripIv_completeIv; oracle: independent Python computation of numbers and effective IVs from the generated history, and a scan of the serialised text for IV attributes that were not in the input",
     "assumptions": ["built playlists: segments with and without explicit numbers, media sequence in {absent, 0, 1, 5} (group built:*); acceptance of explicit numbers is C20's subject"],
 }
@@ -1467,7 +1492,7 @@ def c08_build(ctx):
             segs.append((u, rng.choice("NEEII"), pick(), pick(), mp))
         cases.append(mk("rt_media", c08_render(segs), group="random-values", meta={"segs": segs}))
         if rng.random() < 0.5:
-            cases.append(mk("rt_media", dress_media(rng, c08_render(segs), avoid=("range", "map")), group="random-values-dressed", meta={"segs": segs}))
+            cases.append(mk("rt_media", dress_header(rng, dress_media(rng, c08_render(segs), avoid=("range", "map"))), group="random-values-dressed", meta={"segs": segs}))
     for t in corpus_texts():
         if "BYTERANGE" in t:
             cases.append(mk("rt_media", t, group="corpus"))
@@ -1552,7 +1577,7 @@ def c08_canon(raw, keys):
 PROPS["C08"] = {
     "build": c08_build, "gate": {"status"}, "canon": c08_canon, "oracle": c08_oracle,
     "nontrivial": lambda c, a: a.startswith("ok") and "#EXT-X-BYTERANGE" in c.payload,
-    "rule": "every sequence of up to 4 (thorough 5) segments over 2 URIs x {no range, range with offset, range without offset}; random sequences with lengths/offsets from {0, 1, 2^32, 2^63, 2^64-1} and random values, EXT-X-MAP BYTERANGE with and without offset; repository fixtures; generated playlists; non-trivial = accepted text with at least one EXT-X-BYTERANGE",
+    "rule": "every sequence of up to 4 (thorough 5) segments over 2 URIs x {no range, range with offset, range without offset}; random sequences with lengths/offsets from {0, 1, 2^32, 2^63, 2^64-1} and random values, EXT-X-MAP BYTERANGE with and without offset; repository fixtures; generated playlists; look-alike URIs (case, escape, query, dot segment) at random and all ordered pairs; a MAP with a byte range of the same file in front of every position of every triple of segment kinds; non-trivial = accepted text with at least one EXT-X-BYTERANGE",
     "exhaustive": True,
     "explanation": "theorems: checkRanges_iff / validate_ranges_iff (validator <-> well-chained), resolveRange_eq, built_ranges, ranges_lines (reported ranges = declarative resolution for every accepted line history), not_chained_rejected, resolved_range_text (n@start, re-parses to itself), map_range_verbatim; oracle: independent Python spec per generated sequence + scan of the written text + re-parse comparison",
     "assumptions": ["sums beyond 2^64-1 are outside the property's domain (the code saturates there); such generated cases are only checked for absence of panics"],
@@ -1647,6 +1672,7 @@ def c09_build(ctx):
             lines.append("#EXTINF:%s,%s" % (dec9(max(0, d)), "t" if kind == "title" else ""))
             lines.append(uri)
         if rng.random() < 0.3: lines.append("#EXT-X-ENDLIST")
+        lines = dress_header(rng, "\n".join(lines)).split("\n")
         cases.append(mk("media_builder", "\n".join(lines) + "\n", "-" if e is None else str(e * NS), group="text-dressed",
                         meta={"durs": [max(0, d) for d in durs], "t": t * NS, "e": None if e is None else e * NS}))
     return cases
@@ -1807,7 +1833,7 @@ def c15_oracle(ctx, cases, impl, model):
 PROPS["C15"] = {
     "build": c15_build, "gate": {"status"}, "oracle": c15_oracle,
     "nontrivial": lambda c, a: len(c.meta.get("kinds", [1])) >= 1,
-    "rule": "every sequence of up to 3 (thorough 4) lines drawn from one representative line per tag kind (24 representatives incl. URI, comment, unknown tag, EXT-X-VERSION) behind the #EXTM3U header, fed to BOTH parsers; all sequences up to length 2 without the header; generated media and master playlists and the repository fixtures fed to the other parser; non-trivial = non-empty sequence",
+    "rule": "every sequence of up to 3 (thorough 4) lines drawn from one representative line per tag kind (24 representatives incl. URI, comment, unknown tag, EXT-X-VERSION) behind the #EXTM3U header, fed to BOTH parsers; all sequences up to length 2 without the header; generated media and master playlists and the repository fixtures fed to the other parser; every media value-tag prefix with 30 values behind the colon in a master playlist and the master tags likewise in a media playlist; the first line of every sequence of length 1-2 on the header line itself; non-trivial = non-empty sequence",
     "exhaustive": True,
     "explanation": "theorems: never_both (for every string), master_rejects_media_tags, media_rejects_master_tags, header_required, media_has_target_duration, masterStep_err_iff / mediaStep_foreign + tables_match over the tables regenerated from the UnexpectedTag arms, streaminf_pairs, streaminf_trailing; oracle: Python computes the item kinds (STREAM-INF pairing) and the property's rejection rules",
     "assumptions": ["a builder pre-configured with a target duration (MediaPlaylistBuilder::parse) can accept a text without EXT-X-TARGETDURATION; the property concerns the TryFrom/FromStr entry points"],
@@ -2056,7 +2082,7 @@ def c16_canon(raw, keys):
 PROPS["C16"] = {
     "build": c16_build, "gate": {"status"}, "canon": c16_canon, "oracle": c16_oracle,
     "nontrivial": lambda c, a: a.startswith("ok") and ("live" in c.meta or "cut" in c.meta),
-    "rule": "live histories of 2-7 segments (key events over 4 formats incl. NONE and explicit IVs, byte ranges none/explicit/implicit, media sequences up to 2^64-21): EVERY window [k,m) is rendered the way a server would (media sequence + k, keys in effect and the first byte range restated) - this covers append (m grows), slide (k grows) and every chain of both; generated playlists cut at EVERY line boundary; master playlists and media texts cut right after EXT-X-STREAM-INF; non-trivial = accepted window or cut",
+    "rule": "live histories of 2-7 segments (key events over 4 formats incl. NONE and explicit IVs, byte ranges none/explicit/implicit, media sequences up to 2^64-21): EVERY window [k,m) is rendered the way a server would (media sequence + k, keys in effect and the first byte range restated) - this covers append (m grows), slide (k grows) and every chain of both; generated playlists cut at EVERY line boundary; master playlists and media texts cut right after EXT-X-STREAM-INF; generated playlists with playlist-level tags, unknown tags, comments and blank lines inserted INSIDE items, cut at every line (an item stays open across them); non-trivial = accepted window or cut",
     "explanation": "theorems: append_stable (segments of an accepted history are a prefix of those of any accepted extension without a new MEDIA-SEQUENCE), built_prefix, built_functional, cut_inside_item_rejected, trailing_error_item_rejected, built_shift / built_drop / built_prev_irrelevant / slide_stable (dropping k segments and raising the media sequence by k leaves numbers, URIs, ranges, keys, IVs of the rest unchanged); oracle: per history, the identity (number, URI, resolved range, key set with effective IVs) of each segment must be the same in every window that contains it; per cut, rejected or prefix",
     "assumptions": ["an appended or cut-away EXT-X-MEDIA-SEQUENCE line legitimately renumbers (the last one wins): excluded as in the theorem's hypothesis", "EXT-X-MAP is attached to the next segment only (library design) and is not part of the slide oracle"],
 }
@@ -2347,7 +2373,7 @@ def c05_canon(raw, keys):
 PROPS["C05"] = {
     "build": c05_build, "gate": {"status"}, "canon": c05_canon, "oracle": c05_oracle,
     "nontrivial": lambda c, a: True,
-    "rule": "malformed stream: mutants of generated and fixture playlists (token replaced by a boundary value such as -1, 2^64-1, 2^64, nan, inf, 1e400, empty, lone quote, 300-digit numbers; truncation at every kind of position; duplicated / swapped lines; multi-byte characters spliced next to = , \" @ x / :), mutants of one or two valid texts per tag and per attribute type, random texts over a tag-biased alphabet, every boundary token on every attribute type; through every text-accepting entry point (TryFrom, FromStr, builder.parse with allowances, every public tag and type parser) and, for accepted values, to_string() and the re-parse; distinct cases all count (each decides panic-or-not)",
+    "rule": "malformed stream: mutants of generated and fixture playlists (token replaced by a boundary value such as -1, 2^64-1, 2^64, nan, inf, 1e400, empty, lone quote, 300-digit numbers; truncation at every kind of position; duplicated / swapped lines; multi-byte characters spliced next to = , \" @ x / :), mutants of one or two valid texts per tag and per attribute type, random texts over a tag-biased alphabet, every boundary token on every attribute type; through every text-accepting entry point (TryFrom, FromStr, builder.parse with allowances, every public tag and type parser) and, for accepted values, to_string() and the re-parse; distinct cases all count (each decides panic-or-not); every quoted string, title and URI of every tag replaced by 40-1200 bytes of 2-, 3- and 4-byte characters behind 0-3 ASCII bytes (alone, in a playlist of its own kind, in one of the other kind); timing families with ONE long value (4n codecs, 20n-byte strings in every string position)",
     "explanation": "theorems: parseMedia_never_panics (every builder configuration, every string), parseMaster_never_panics, types_never_panic, tags_never_panic, show_never_panics (to_string of ANY media playlist value), items_np, buildLoop_np / build_np, items_byteRange (classifier output fits 64 bits, so ByteRange::set_start cannot fire); termination: all model functions pass Lean's termination checker; the compared observable is only 'unwound or returned'; running time is measured on the real library at 1x/2x/4x sizes (supporting evidence, coverage.timing)",
     "extra_coverage": lambda ctx: {"timing": getattr(ctx, "timing", {}),
                                    "panic_site_inventory": "equal to panic_sites.json" if getattr(ctx, "panic_inventory", None) is None else getattr(ctx, "panic_inventory")},
@@ -2475,7 +2501,7 @@ def c11_oracle(ctx, cases, impl, model):
 PROPS["C11"] = {
     "build": c11_build, "gate": {"status", "obs", "T", "V", "D", "A", "R", "F"}, "oracle": c11_oracle, "static": c11_static,
     "nontrivial": lambda c, a: a.startswith("ok") and c.group == "threads",
-    "rule": "texts with 2-6 simultaneously active key formats declared in shuffled orders (plus maps), generated media/master playlists with a high key rate, repository fixtures; each text is parsed and re-serialised k times in one process (quick 5, thorough 50), on 4 extra threads (`par`), and in m fresh processes (quick 4, thorough 64; fresh hash seeds); all responses (value, text, version, keys(), round trip) must be byte-identical and equal to the model's single answer; non-trivial = distinct accepted texts",
+    "rule": "texts with 2-6 simultaneously active key formats declared in shuffled orders (plus maps), generated media/master playlists with a high key rate, repository fixtures; each text is parsed and re-serialised k times in one process (quick 5, thorough 50), on 4 extra threads (`par`), and in m fresh processes (quick 4, thorough 64; fresh hash seeds); all responses (value, text, version, keys(), round trip) must be byte-identical and equal to the model's single answer; master playlists with several distinct items of each kind plus verbatim repetitions, generated playlists with repeated tag lines; static: hash collections whose iteration can reach an output, state that outlives a call (thread_local, interior-mutable statics); non-trivial = distinct accepted texts",
     "explanation": "theorems: listing_canonical (the key listing is determined by the RFC-level key state), insert_comm, same_state_same_listing, segment_keys_sorted (every accepted text), parse_is_a_function; static tie: a scan of media_playlist.rs / master_playlist.rs / media_segment.rs / line.rs flags any HashSet/HashMap whose iteration can reach an output (membership-only use is allowed); the runtime part of the property (threads, processes, hash seeds) cannot be exhibited by a model and is executed",
     "assumptions": ["thread scheduling and process hash seeds are sampled, not enumerated (partial by nature)"],
 }
@@ -2573,7 +2599,7 @@ def c17_oracle(ctx, cases, impl, model):
 PROPS["C17"] = {
     "build": c17_build, "gate": {"status", "obs", "O", "C", "T", "V", "D"}, "oracle": c17_oracle,
     "nontrivial": lambda c, a: a.startswith("ok"),
-    "rule": "generated media and master playlists, repository fixtures, valid and mutated texts of every tag and attribute type that offers into_owned() (9 tags, 6 types; segments through the playlists), attribute-rich EXT-X-DATERANGE tags; for each accepted value v: v.clone().into_owned() and v.clone() must be ==, have the same observation and the same to_string(); the three media entry points are run on the same texts; non-trivial = accepted value",
+    "rule": "generated media and master playlists, repository fixtures, valid and mutated texts of every tag and attribute type that offers into_owned() (9 tags, 6 types; segments through the playlists), attribute-rich EXT-X-DATERANGE tags; for each accepted value v: v.clone().into_owned() and v.clone() must be ==, have the same observation and the same to_string(); the three media entry points are run on the same texts; the near-pair families of every type and tag, keys with zero version lists (tag, playlist, entry points), near-equal media / master playlists; non-trivial = accepted value",
     "explanation": "theorems (over lean/Hls/Generated/IntoOwned.lean, regenerated from the 19 fn into_owned bodies on every run): *_id for all 19 types (into_owned is the identity on observable content), entry_points_agree, owned_same_text; oracle on the implementation: ==, equal observation, equal text for into_owned() and clone(); equal results of TryFrom / FromStr / builder.parse",
     "assumptions": ["#[derive(Clone)] is structural (trusted)", "the translator recognises only ownership-only wrappers (Cow::Owned(x.into_owned()), .map(..into_owned..), .into_iter().map(..).collect(), plain move); any other expression is reported as a broken tie"],
 }
@@ -2792,7 +2818,7 @@ def _k6a(f):
 PROPS["C14"] = {
     "build": c14_build, "gate": {"status"}, "oracle": c14_oracle,
     "nontrivial": lambda c, a: True,
-    "rule": "exhaustive over presence/absence of each tag's attributes and over each enumerated attribute's value set plus one invalid value: EXT-X-MEDIA (6 TYPE cases x URI x GROUP-ID x NAME x DEFAULT/AUTOSELECT/FORCED in {absent,YES,NO[,invalid]} x INSTREAM-ID in {absent,CC1,SERVICE7,invalid}) as text, through the enclosing master playlist and through ExtXMediaBuilder; EXT-X-DATERANGE (ID, CLASS, START-DATE, END-DATE, DURATION in {absent,1.5,-1,nan}, PLANNED-DURATION, END-ON-NEXT in {absent,YES,NO}, client attribute names valid/lowercase/non-ASCII/underscore) as text and through the builder; EXT-X-SESSION-DATA 2^4 as text, in a master playlist and through the builder; EXT-X-KEY / EXT-X-SESSION-KEY (METHOD x URI x 6 IV spellings x 7 KEYFORMATVERSIONS spellings); stream tags; EXT-X-START; every value and some non-values of every enumerated type; every case counts",
+    "rule": "exhaustive over presence/absence of each tag's attributes and over each enumerated attribute's value set plus one invalid value: EXT-X-MEDIA (6 TYPE cases x URI x GROUP-ID x NAME x DEFAULT/AUTOSELECT/FORCED in {absent,YES,NO[,invalid]} x INSTREAM-ID in {absent,CC1,SERVICE7,invalid}) as text, through the enclosing master playlist and through ExtXMediaBuilder; EXT-X-DATERANGE (ID, CLASS, START-DATE, END-DATE, DURATION in {absent,1.5,-1,nan}, PLANNED-DURATION, END-ON-NEXT in {absent,YES,NO}, client attribute names valid/lowercase/non-ASCII/underscore) as text and through the builder; EXT-X-SESSION-DATA 2^4 as text, in a master playlist and through the builder; EXT-X-KEY / EXT-X-SESSION-KEY (METHOD x URI x 6 IV spellings x 7 KEYFORMATVERSIONS spellings); stream tags; EXT-X-START; every value and some non-values of every enumerated type; every case counts; every string attribute of SESSION-DATA / MEDIA / DATERANGE absent, with content, empty, blank (text in both orders, builders); key URIs blank in the Unicode sense (12 blank, 6 non-blank strings) as text and through the builder",
     "exhaustive": True,
     "explanation": "theorems: media_build_ok_iff / media_parse_ok_iff (ExtXMediaBuilder::validate + required fields = the property's rules, for ALL builder states; the text parser ends in the same table), dateRange_finish_ok_iff, dateRange_end_on_next, duration_text_rejected, duration_special_rejected, client_attribute_name_rejected, sessionData_finish_ok_iff, decryptionKey_finish_ok_iff, decryptionKey_uri_nonempty, method_values, iv_syntax, versions_capacity, streamData_finish_ok_iff, iframe_needs_uri, yes_no_values, start_needs_time_offset; the two builders without validation are stated as _partial with counterexample theorems (K6); oracle: the property's rules written independently in Python per generated attribute subset",
     "assumptions": [],
@@ -2862,7 +2888,14 @@ def c18_build(ctx):
         if not title:
             continue
         ns = rng.choice([rng.randint(0, 10**10), rng.randint(0, 30) * NS])
-        cases.append(mk("tag:ExtInf", "#EXTINF:%s,%s" % (dec9(ns), title), group="duration-title", meta={"domain": True, "ns": ns, "title": title}))
+        lit = dec9(ns)
+        if ns % NS == 0 and rng.random() < 0.6:          # a whole number of seconds in its other spellings
+            lit = rng.choice(["%d", "0%d", "%d.", "%d.0", "00%d.00"]) % (ns // NS)
+        cases.append(mk("tag:ExtInf", "#EXTINF:%s,%s" % (lit, title), group="duration-title", meta={"domain": True, "ns": ns, "title": title}))
+    for secs, title in itertools.product([0, 1, 7, 10, 3600], [",", ",,", ",,,", "a,", ",a", ", ,", "1", "1,2", "#", "=", "a=b,c"]):
+        for lit in ("%d", "0%d", "%d.0", "%d.5"):
+            ns = secs * NS + (NS // 2 if lit.endswith(".5") else 0)
+            cases.append(mk("tag:ExtInf", "#EXTINF:%s,%s" % (lit % secs, title), group="duration-title", meta={"domain": True, "ns": ns, "title": title.strip()}))
     # every tag line of generated and abstract playlists (all attribute subsets the playlist generators produce), tag by tag
     PFX = [("#EXT-X-I-FRAME-STREAM-INF:", "VariantStream"), ("#EXT-X-STREAM-INF:", "VariantStream"), ("#EXT-X-MEDIA:", "ExtXMedia"),
            ("#EXT-X-SESSION-DATA:", "ExtXSessionData"), ("#EXT-X-SESSION-KEY:", "ExtXSessionKey"), ("#EXT-X-START:", "ExtXStart"),
@@ -3050,7 +3083,7 @@ def _k4(f):
 PROPS["C18"] = {
     "build": c18_build, "gate": {"status", "obs", "T", "R", "V"}, "oracle": c18_oracle,
     "nontrivial": lambda c, a: a.startswith("ok"),
-    "rule": "every variant of every enumerated type (67 in-stream ids, 7 versions, ...), boundary and random 64-bit integers through Channels / Resolution / ByteRange, random key-format-version lists (1-9 items), 128-bit IVs in both hex cases, codec lists, client attribute values of the three kinds, float literals and random / structured binary32 bit patterns on both float wrappers (also run through the model's float emulation), durations below 10^6 s with nanosecond precision, seeds and generated instances of every composite tag; plus a sweep of binary32 patterns executed inside the harness (quick: 256 strata x 2^16 per wrapper; thorough: all 2^32 per wrapper): accept iff finite (and sign bit clear), to_string -> parse gives the same bits; non-trivial = accepted value",
+    "rule": "every variant of every enumerated type (67 in-stream ids, 7 versions, ...), boundary and random 64-bit integers through Channels / Resolution / ByteRange, random key-format-version lists (1-9 items), 128-bit IVs in both hex cases, codec lists, client attribute values of the three kinds, float literals and random / structured binary32 bit patterns on both float wrappers (also run through the model's float emulation), durations below 10^6 s with nanosecond precision, seeds and generated instances of every composite tag; plus a sweep of binary32 patterns executed inside the harness (quick: 256 strata x 2^16 per wrapper; thorough: all 2^32 per wrapper): accept iff finite (and sign bit clear), to_string -> parse gives the same bits; values built through the public builders and through the constructors that are not builders (ctor: new / with_ / From<Range> of 14 types) incl. strings that read like numbers, hex or keywords; the binary32 sweeps also through EXT-X-START and a client attribute value (all 2^32 in the quick tier too when float-related code changed); non-trivial = accepted value",
     "explanation": "theorems: encryptionMethod_rt, hdcpLevel_rt, mediaType_rt, playlistType_rt, protocolVersion_rt, inStreamId_rt (all 67, decide +kernel over the table regenerated from the source), channels_rt, resolution_rt, byteRange_rt, codecs_rt, hexDecode_encode / natToBytes_spec / hexEncode_utf8Len / value_hex_rt, keyFormat_rt, closedCaptions_rt, keyFormatVersions_rt, float_accepts_finite; Props/C18Tags.lean: every tag type (EXTINF, BYTERANGE, KEY, MAP, PROGRAM-DATE-TIME, DATERANGE with its client attributes, MEDIA, both STREAM-INF kinds, SESSION-DATA, SESSION-KEY, START, the one-value tags) parses back from its own text on its well-formedness domain, and every parsed value is in that domain; FL1/FL2/FL3 are the named IEEE-754 hypotheses (float printing reading back), checked by execution incl. the 2^32 sweep; every case also carries the implementation oracle R:= (parse(to_string(v)) has the same observation as v), for parsed values and for values built through the public builders",
     "extra_coverage": lambda ctx: {"f32_sweep": getattr(ctx, "sweep", {})},
     "assumptions": ["FL1 (shortest-digit printing of binary32 round-trips) and FL2 (durations < 10^6 s through f64) are validated by execution, not proved"],
@@ -3136,6 +3169,18 @@ def c10_build(ctx):
             segs.append(s)
         script = "td 10000000000\n" + ("ifo 1\n" if rng.random() < 0.2 else "") + "\n".join(segs)
         cases.append(mk("build_media", script.rstrip("\n"), group="built"))
+    # key LISTS of built segments (whatever is written has to be covered by the version): several keys, the NONE marker in front
+    # of, behind and between real keys, each version-relevant attribute on each position
+    kk = {"plain": "key=aes:%s:-:-:-" % C.hx("k"), "iv": "key=aes:%s:000102030405060708090a0b0c0d0e0f:-:-" % C.hx("k"), "fmt": "key=saes:%s:-:%s:-" % (C.hx("k"), C.hx("f")),
+          "ver": "key=saes:%s:-:%s:1/2" % (C.hx("k"), C.hx("g")), "none": "key=none"}
+    for a_, b_ in itertools.product(kk, repeat=2):
+        for c_ in (None, "none", "plain"):
+            if a_ == b_ and a_ != "none":
+                continue
+            toks = [kk[a_], kk[b_]] + ([kk[c_]] if c_ else [])
+            for frac in (0, 1):
+                script = "td 10000000000\npush dur=%d uri=%s\npush dur=%d uri=%s %s" % (1500000000 if frac else NS, C.hx("s0"), NS, C.hx("s1"), " ".join(toks))
+                cases.append(mk("build_media", script, group="built-key-lists"))
     return cases
 
 
@@ -3177,7 +3222,7 @@ def c10_canon(raw, keys):
 PROPS["C10"] = {
     "build": c10_build, "gate": {"status"}, "canon": c10_canon, "oracle": c10_oracle,
     "nontrivial": lambda c, a: a.startswith("ok") and " V:1 " not in a,
-    "rule": "generated media and master playlists, the repository fixtures, the full on/off lattice of the version-relevant features (IV attribute, fractional EXTINF, BYTERANGE, I-FRAMES-ONLY, KEYFORMAT, KEYFORMATVERSIONS, MAP, a covering key; SERVICE in-stream ids, session keys) and playlists made through the builder; non-trivial = accepted playlist whose required version is above 1",
+    "rule": "generated media and master playlists, the repository fixtures, the full on/off lattice of the version-relevant features (IV attribute, fractional EXTINF, BYTERANGE, I-FRAMES-ONLY, KEYFORMAT, KEYFORMATVERSIONS, MAP, a covering key; SERVICE in-stream ids, session keys) and playlists made through the builder; the consecutive-segment families of C03 (a tag the writer decides not to repeat must not leave the version behind); non-trivial = accepted playlist whose required version is above 1",
     "explanation": "theorems: media_version_line / media_version_present / master_version_line (exactly one EXT-X-VERSION line carrying required_version(), omitted iff 1), media_version_sound / master_version_sound (the RFC minimum computed from the WRITTEN typed lines never exceeds the emitted version), media_version_not_inflated_partial (emitted version <= max(RFC minimum, slack) with slack = 6 for any MAP, 2 for a derived IV; hypothesis NoDefaultVersions excludes finding K4, proved as k4_counterexample); the writers are defined through typed lines and rendered by Line.render; oracle: an independent Python scan of the real to_string() text",
     "assumptions": ["the text rendering of each written line is the tag's Display (tied by the correspondence run on the T field in other checks); the gate here compares V and the VERSION line only"],
 }
@@ -3513,7 +3558,7 @@ def _k9(f):
 PROPS["C20"] = {
     "build": c20_build, "gate": {"status", "obs", "V", "D", "A", "R"}, "oracle": c20_oracle,
     "nontrivial": lambda c, a: a.startswith("ok") and c.op.startswith("build_"),
-    "rule": "abstract media playlists (header fields, 0-5 segments with key histories over 4 formats / NONE / explicit IVs, byte ranges explicit and offset-less, maps, titles, dates, a too-long segment now and then, unknown tags) realised (a) as text, (b) as builder scripts with the setter calls shuffled and interleaved with push_segment calls, (c) the same with segments(vec); builder scripts with explicit segment numbers up to 64 through both push_segment and segments; master playlists (consistent and inconsistent) as text and as MasterPlaylistBuilder scripts with shuffled setters; non-trivial = successfully built value",
+    "rule": "abstract media playlists (header fields, 0-5 segments with key histories over 4 formats / NONE / explicit IVs, byte ranges explicit and offset-less, maps, titles, dates, a too-long segment now and then, unknown tags) realised (a) as text, (b) as builder scripts with the setter calls shuffled and interleaved with push_segment calls, (c) the same with segments(vec); builder scripts with explicit segment numbers up to 64 through both push_segment and segments; master playlists (consistent and inconsistent) as text and as MasterPlaylistBuilder scripts with shuffled setters; every setter of every builder called twice with different values against the last call alone; tag builders against the text of the same content (Unicode-blank URIs); built playlists with keyed segments followed by segments on which keys(..) was never called; non-trivial = successfully built value",
     "explanation": "theorems: setters_commute, setter_last_wins, setter_push_commute, setters_then_pushes (any interleaving of setter calls with pushes gives the same builder), pushes_eq_segments, parser_is_builder / builder_text_agree (the parser ends in build() of exactly that builder state, so acceptance and value coincide for implicitly numbered content), build_never_panics, built_numbering (gap-free, implicit = media_sequence + position, explicit preserved), master_parser_is_builder, master_build_never_panics; tag builders: C14; oracle: same acceptance and same observation for the three realisations of each content, numbering rule on explicit numbers, serialisation of every built value re-parses to its content",
     "assumptions": ["key histories are restricted to those the writer can express (recorded finding K3 is C03's subject)", "explicit numbers are in-domain up to 64 (a huge explicit number makes StableVec::reserve_for allocate that many slots)"],
 }
@@ -3821,7 +3866,7 @@ def c12_oracle(ctx, cases, impl, model):
 PROPS["C12"] = {
     "build": c12_build, "gate": {"status", "obs", "D", "A"}, "oracle": c12_oracle,
     "nontrivial": lambda c, a: a.startswith("ok") and c.meta.get("role") != "base",
-    "rule": "accepted base texts (repository fixtures, generated media and master playlists) and, for each, single and composed transformations written independently of the model: attribute shuffle, unknown attributes, blanks around = and , , relative order of playlist-level tags, order of the non-key segment tags, comment lines, redundant EXT-X-VERSION tags, blank lines, line padding (ASCII and Unicode white space), CRLF, trailing white space / missing final newline; plus insertion of unknown #EXT tags; non-trivial = accepted transformed text",
+    "rule": "accepted base texts (repository fixtures, generated media and master playlists) and, for each, single and composed transformations written independently of the model: attribute shuffle, unknown attributes, blanks around = and , , relative order of playlist-level tags, order of the non-key segment tags, comment lines, redundant EXT-X-VERSION tags, blank lines, line padding (ASCII and Unicode white space), CRLF, trailing white space / missing final newline; plus insertion of unknown #EXT tags; unknown attributes are mostly near misses of the tag's own attribute names (prefix / suffix added, other letter case) with values copied from the list or keywords, also in first and last place; non-trivial = accepted transformed text",
     "explanation": "theorems (Props/C12.lean): media_neutral_lines / master_neutral_lines (comments, EXT-X-VERSION), media_rearrangement / master_rearrangement (any sequence of swaps of adjacent independent lines: playlist-level tags among each other and with segment tags, non-key segment tags among each other; mediaStep_comm is checked for all 23x23 line kinds), media_unknown_tags / master_unknown_tags, the closed forms of all eight attribute loops (Proofs/AttrFold.lean: every field is a function of the last value written for its name) giving *_attr_layout for MAP, DATERANGE incl. client attributes, START, MEDIA, SESSION-DATA, KEY incl. METHOD=NONE, SESSION-KEY, StreamData under AttrEquiv (permutation without repeated names, unknown attributes free), attrEquiv_padded via attrPairs_render (blanks around names, =, values and ,), media_lines_layout / master_lines_layout + lines_seen, crlf_irrelevant, blank_lines_irrelevant, line_padding_irrelevant, trailing_space_irrelevant (the complete string-level parsers depend on the text only through its trimmed non-empty lines). Tie: every base and every transformed text must give the same status and observation on library and model; oracle (implementation only): each transformed text parses to the observation of its original.",
     "assumptions": ["the transformations of the oracle stream are written in Python from RFC 8216 section 4, not taken from the model"],
 }
@@ -4118,7 +4163,7 @@ def _k3(f):
 PROPS["C03"] = {
     "build": c03_build, "gate": {"status", "obs", "D", "R", "F"}, "oracle": c03_oracle,
     "nontrivial": lambda c, a: a.startswith("ok") and "#EXT-X-KEY" in c.payload,
-    "rule": "repository media fixtures; EVERY key/map/segment event sequence over the 11-letter alphabet of C06 (4 key formats x 2 payloads, METHOD=NONE, EXT-X-MAP, segment) up to the length bound; long random histories with IV / KEYFORMATVERSIONS attributes, byte ranges and titles; generated playlists with all 17 tags; each through try_from -> to_string -> try_from -> to_string; plus DATERANGE / KEY / EXTINF / MAP tags on their own; non-trivial = accepted text with at least one EXT-X-KEY",
+    "rule": "repository media fixtures; EVERY key/map/segment event sequence over the 11-letter alphabet of C06 (4 key formats x 2 payloads, METHOD=NONE, EXT-X-MAP, segment) up to the length bound; long random histories with IV / KEYFORMATVERSIONS attributes, byte ranges and titles; generated playlists with all 17 tags; each through try_from -> to_string -> try_from -> to_string; plus DATERANGE / KEY / EXTINF / MAP tags on their own; consecutive-segment families (every kind of segment tag and near-equal key pairs: same value / other value / with a gap on 2-3 consecutive segments, alone and in pairs of kinds, under every playlist-level tag); non-trivial = accepted text with at least one EXT-X-KEY",
     "exhaustive": True,
     "explanation": "see DESIGN.md section 7 (C03) for the theorem status; tie: status, observation, D, R and F must agree between library and model (the model's writer and parser embody the recorded findings exactly, so a new defect shows as a disagreement even where an oracle failure is classified as known); oracle on the library: R:= and F:1",
     "assumptions": ["exhaustive = all event sequences up to the stated length over the stated alphabet (not all texts)"],
@@ -4177,7 +4222,7 @@ def _k8(f):
 PROPS["C02"] = {
     "build": c02_build, "gate": {"status", "obs", "A"}, "oracle": c02_oracle,
     "nontrivial": lambda c, a: a.startswith("ok") and len(a) > 60,
-    "rule": "abstract master playlists (what the text says: ordered items of the 7 master tags with any admissible attribute subset: 64-bit bandwidths and resolutions, all 67 in-stream ids, all enum values, quoted strings with commas / '=' / Unicode, IVs, key formats and version lists, frame rates, start offsets) rendered in varied surface syntax (attribute order, unknown attributes, blanks, comments, blank lines, CRLF, padding); the library's observation must EQUAL the observation computed from the abstract playlist; plus the fixtures and prefix look-alikes of known tags; non-trivial = accepted non-empty playlist",
+    "rule": "abstract master playlists (what the text says: ordered items of the 7 master tags with any admissible attribute subset: 64-bit bandwidths and resolutions, all 67 in-stream ids, all enum values, quoted strings with commas / '=' / Unicode, IVs, key formats and version lists, frame rates, start offsets) rendered in varied surface syntax (attribute order, unknown attributes, blanks, comments, blank lines, CRLF, padding); the library's observation must EQUAL the observation computed from the abstract playlist; plus the fixtures and prefix look-alikes of known tags; key formats that only look like a well-known one; a variant stream listed twice; long quoted strings and source literals; non-trivial = accepted non-empty playlist",
     "explanation": "see DESIGN.md section 7 (C02); theorems in Props/C02.lean",
     "assumptions": ["the abstract playlists and their expected observations (bin/lib/faithful.py) are written from RFC 8216, with exact rational arithmetic for binary32 rounding"],
 }
@@ -4237,7 +4282,7 @@ def _k1(f):
 PROPS["C01"] = {
     "build": c01_build, "gate": {"status", "obs", "D"}, "oracle": c01_oracle,
     "nontrivial": lambda c, a: a.startswith("ok") and "#EXTINF" in c.payload,
-    "rule": "abstract media playlists (0..8 segments, any combination of the 17 media tags with at most one segment tag of a kind per segment, any attribute subset, quoted strings with commas / '=' / blanks / Unicode, decimal durations with up to 9 fractional digits below 10^6 s, 64-bit integers at the type limits, key events of 7 key formats) rendered in varied surface syntax; every playlist-level value, the segment list and per segment URI, duration in ns, title, discontinuity flag, program date-time, date range with typed client attributes, map and byte range must equal what the abstract playlist says, and the text must be accepted; plus fixtures, INDEPENDENT-SEGMENTS with mixed methods and prefix look-alikes of known tags; non-trivial = accepted playlist with at least one segment",
+    "rule": "abstract media playlists (0..8 segments, any combination of the 17 media tags with at most one segment tag of a kind per segment, any attribute subset, quoted strings with commas / '=' / blanks / Unicode, decimal durations with up to 9 fractional digits below 10^6 s, 64-bit integers at the type limits, key events of 7 key formats) rendered in varied surface syntax; every playlist-level value, the segment list and per segment URI, duration in ns, title, discontinuity flag, program date-time, date range with typed client attributes, map and byte range must equal what the abstract playlist says, and the text must be accepted; plus fixtures, INDEPENDENT-SEGMENTS with mixed methods and prefix look-alikes of known tags; every abstract playlist goes through one of the three entry points (TryFrom, FromStr, default builder's parse); segments repeated tag for tag; long quoted strings and strings mined from the source's own literals; non-trivial = accepted playlist with at least one segment",
     "explanation": "see DESIGN.md section 7 (C01); theorems in Props/C01.lean; keys in effect / their order / IV completion / numbering are C06 / C11 / C07",
     "assumptions": ["the abstract playlists and the comparison (bin/lib/faithful.py) are written from RFC 8216, with exact decimal arithmetic for durations and exact rational rounding for binary32"],
 }
